@@ -33,16 +33,34 @@ def rr():
     return replication_repair
 
 
+DIRS = ["a", "a-b", "a.c", "a b", "ab", "a+", "a#x", "a_", "b", "photos", "photos-raw", "d1", "d2", "é", "Z"]
+
+
 def gen_universe(rng):
+    """file paths of mixed depth; directory names include prefix-extending siblings whose next character sorts below and above '/'
+    (a, a-b, a.c, 'a b', ab, a_): joined-string comparisons and component-wise comparisons disagree exactly there"""
     paths = set()
+    style = rng.choice(["names", "prefix-siblings", "prefix-siblings"])
 
     def gen(prefix, depth):
-        used = rng.sample(NAMES, rng.randrange(1, 5))
-        for nm in used:
-            if depth < 4 and rng.random() < 0.4:
-                gen(prefix + [nm + "_d" if rng.random() < 0.5 else nm.upper() + "D"], depth + 1)
-            else:
-                paths.add("/".join(prefix + [nm]))
+        if style == "names":
+            used = rng.sample(NAMES, rng.randrange(1, 5))
+            for nm in used:
+                if depth < 4 and rng.random() < 0.4:
+                    gen(prefix + [nm + "_d" if rng.random() < 0.5 else nm.upper() + "D"], depth + 1)
+                else:
+                    paths.add("/".join(prefix + [nm]))
+        else:
+            for nm in rng.sample(NAMES, rng.randrange(0, 3)):
+                paths.add("/".join(prefix + [nm + ".f"]))
+            if depth < 3:
+                base = rng.choice(["a", "photos", "d1"])
+                sibs = [x for x in DIRS if x.startswith(base)]
+                for dn in rng.sample(sibs, rng.randrange(1, min(4, len(sibs)) + 1)) + rng.sample(DIRS, rng.randrange(0, 2)):
+                    if rng.random() < 0.75:
+                        gen(prefix + [dn], depth + 1)
+            if not paths:
+                paths.add("/".join(prefix + ["only.f"]))
     gen([], 0)
     # consistency: a component is never both a file and a directory
     dirs = set()
